@@ -27,6 +27,7 @@ type recCase struct {
 	Where  string   `json:"where"`                               // route | action | notfound | group
 	Phase  string   `json:"phase"`                               // before | after-header | after-body
 	Kind   string   `json:"kind"`                                // string | error | runtime | struct | int | abort | dep
+	Accept string   `json:"accept,omitempty"`                    // request header: the body of the error response does not depend on it
 	Buffer bool     `json:"buffering_writer_in_front,omitempty"` // the first middleware (before Recovery) substitutes the http.ResponseWriter service by a buffer and releases it after Next(); Kind may also be nilerr (an error value whose Error method cannot run)
 	Marker string   `json:"marker"`                              // unique text carried by the panic value
 	Seq    []string `json:"seq"`                                 // ok | panic …
@@ -100,6 +101,7 @@ func genRecCase(rng *rand.Rand, env string) *recCase {
 			}
 		}
 	}
+	c.Accept = []string{"", "", "application/json", "text/html", "application/json, text/plain, */*", "*/*"}[rng.Intn(6)]
 	c.Marker = fmt.Sprintf("MK%dZ", 100000+rng.Intn(900000))
 	if c.Kind == "int" {
 		c.Marker = fmt.Sprint(100000 + rng.Intn(900000))
@@ -361,6 +363,8 @@ func judgeRec(w *core.W, c *recCase) {
 	f.Get("/ok", func() string { return "fine" })
 	if c.Built != "" {
 		flamego.SetEnv(flamego.EnvType(c.Env))
+		flamego.SetEnv(flamego.EnvType("staging")) // not one of the three environments: documented to be ignored
+		flamego.SetEnv(flamego.EnvType(""))
 		w.Count("environment-switched-after-assembly")
 	}
 
@@ -370,7 +374,12 @@ func judgeRec(w *core.W, c *recCase) {
 		var o recObs
 		func() {
 			defer func() { o.escaped = recover() }()
-			f.ServeHTTP(spy, &http.Request{Method: "GET", URL: &url.URL{Path: path}, Header: http.Header{}, RequestURI: path})
+			hdr := http.Header{}
+			if c.Accept != "" {
+				hdr.Set("Accept", c.Accept)
+				hdr.Set("X-Requested-With", "XMLHttpRequest")
+			}
+			f.ServeHTTP(spy, &http.Request{Method: "GET", URL: &url.URL{Path: path}, Header: hdr, RequestURI: path})
 		}()
 		o.status, o.body, o.events = spy.status, string(spy.body), events
 		return o
